@@ -25,6 +25,16 @@ CLAIMS = {
              "arithmetic beyond the permutation typing, and dtype coverage, are not decided.",
         technique="abstract interpretation over buffer/layout names + symbolic shape lists + free-group permutation typing (AST)",
         design="5/C01, 4.3"),
+    "C02": dict(
+        text="Layout.__init__: the block table is computed in integer arithmetic only; its symbolic form normalises to 0 at rank "
+             "0 and to n at rank p and is a recognised balanced form floor(n/p)k + floor((n mod p)k/p); starts, ends, lengths and "
+             "shape are slices/differences of that one table; max_block_shape = ceil(n/p). Grid accessors: layout-axis vs "
+             "dimension sort inference on every parameter and subscript, coordinate slices cut the table of the dimension "
+             "carried by the axis, no read of an undefined attribute. Advertised buffer sizes cover the views of the "
+             "transposes (shape-list agreement shared with C01/C03) and Grid allocates all buffers with that size. The "
+             "arithmetic fact 'lengths differ by at most one' is decided only through the recognised form.",
+        technique="symbolic normalisation of the split formula (sympy) + structural table rules + axis/dimension sort inference + undefined-attribute lint",
+        design="5/C02"),
     "C03": dict(
         text="Same field-location flow for LayoutSwapper.transpose (same-group, scatter, gather, multi-step; with and "
              "without buffer), current-manager typestate at every exit, index-ownership typing of all 6 getAxes call "
